@@ -35,7 +35,10 @@ def gen_cases(tier, seed):
         pats = bases.type_patterns(nsh)
         tp = list(pats[i % len(pats)])
         lo, hi = (0.1, 10.0) if eri else (0.05, 50.0)
-        shells, classes = bases.rand_basis(rng, ls, types=tp, emin=lo, emax_fn=lambda l: hi, Kmax=3, Mmax=2 if eri else 3, scale=1.5)
+        sym = bool(nsh >= 3 and i % 5 == 2)  # equivalent atoms around a centre: identical shells at equal distances in different directions
+        if sym:
+            ls = [ls[0]] + [min(ls[1:])] * (nsh - 1)
+        shells, classes = bases.rand_basis(rng, ls, types=tp, emin=lo, emax_fn=lambda l: hi, Kmax=3, Mmax=2 if eri else 3, scale=1.5, symmetric=True if sym else None)
         if i % 4 == 1 and nsh >= 2:  # nearly linearly dependent: shell 1 = shell 0 moved by 1e-3 bohr
             shells[1] = dict(shells[0], c=[shells[0]["c"][0] + 1e-3, shells[0]["c"][1], shells[0]["c"][2]], t=shells[1]["t"])
             classes.append("near-dependent")
